@@ -19,7 +19,7 @@
 (*   Return(c)      RequestAndRecv from the ReadFrom on: the FIRST packet   *)
 (*                  in the requester's receive queue decides the call:      *)
 (*                  RemoveResponseFormat + recvCipher.Decrypt -> bytes or   *)
-(*                  error (requester.go:224-246)                            *)
+(*                  error (requester.go:223-244)                            *)
 (*   Close(c)       Requester.Close (QueuePacketConn.Close): a blocked      *)
 (*                  RequestAndRecv returns an error                         *)
 (*   RequestClosed  RequestAndRecv on a closed requester: error, no query   *)
@@ -31,7 +31,7 @@
 (*   Send(h)        transport.WriteTo(response, addr)                       *)
 (*   DeliverR(d)    requester recvLoop: transport.Read, dnsResponsePayload, *)
 (*                  QueueIncoming (an error-rcode response is queued as an  *)
-(*                  EMPTY packet: requester/dns.go:118-120)                 *)
+(*                  EMPTY packet: requester/dns.go:117-119)                 *)
 (*   Junk(k)        "x" sends a query of class k                            *)
 (*   DropQ/DupQ/ReplayQ/DropR/DupR  network faults (budgeted)               *)
 (*                                                                         *)
@@ -248,7 +248,8 @@ ReplayQ(d) ==
 DeliverR(d) ==
   /\ BagIn(d, rnet)
   /\ rnet' = rnet (-) One(d)
-  /\ cq' = IF d.dst \in Clients /\ cpc[d.dst] # "closed"
+  \* a requester dials its transport in its first RequestAndRecv: before that nothing listens; after Close the queue drops
+  /\ cq' = IF d.dst \in Clients /\ cn[d.dst] > 0 /\ cpc[d.dst] # "closed"
              THEN [cq EXCEPT ![d.dst] = Append(@, [rc |-> d.rc, key |-> d.key])] ELSE cq
   /\ obs' = [a |-> "DeliverR", dst |-> d.dst, rc |-> d.rc, key |-> d.key]
   /\ UNCHANGED <<qnet, hs, cpc, cn, cres, jk, ncalls, ndeliv, nresp, ndup, ndrop, nclose>>
